@@ -255,4 +255,141 @@ def check_c13(tier):
         rep.sample(dict(record=info[5][1], text_written=info[5][2]))
     if traces:
         rep.sample(dict(pool_history=traces[min(7, len(traces) - 1)]['events']))
+    series_view(rep, tier, work)
     return rep.finish()
+
+
+# ---- series view: what pool[tx] hands to callVariant vs a linear scan (spec/GvfSeriesTrace.tla) ------------------------------
+
+def series_worlds(r, n, work):
+    """Real references with small variants, alternative-splicing records (also two insertions on one anchor with different donor
+    segments), fusions and circRNAs, spread over several GVF files of each kind, some lines present in two files."""
+    from vlib import refgen, cvgen
+    from checks.cv import tlc_cases  # noqa: F401
+    worlds = []
+    for wi in range(n):
+        b = refgen.Builder(r)
+        for _ in range(r.randrange(2, 4)):
+            if r.random() < 0.6:
+                seq, cs, ce, secs, prot = refgen.make_coding_tx_seq(r, r.randrange(20, 34), r.randrange(3, 10), r.randrange(6, 16))
+                b.add_gene(seq, r.choice([1, -1]), r.randrange(2, 5), True, cs, ce, secs, (), prot, intron=(9, 20))
+            else:
+                b.add_gene(refgen.rand_noncoding(r, r.randrange(70, 120)), r.choice([1, -1]), r.randrange(2, 5), False, intron=(9, 20))
+        ref = b.finish()
+        d = os.path.join(work, f'sv{wi}'); paths = ref.write(d)
+        txs = list(ref.txs.values())
+        recs = {'small': [], 'as': [], 'fusion': [], 'circ': []}     # kind -> [(tx, key, line)]
+        for t in txs:
+            for v in cvgen.random_small_variants(r, ref, t, r.randrange(0, 4), kinds=('SNV', 'INS', 'DEL')):
+                line = '\t'.join([v['gene'], str(v['gstart'] + 1), v['id'], v['ref'], v['alt'], '.', '.',
+                                   f"TRANSCRIPT_ID={v['tx']};GENE_SYMBOL=S;GENOMIC_POSITION=chr1:{v['gstart']}"])
+                recs['small'].append((t.id, ('small', v['id']), line))
+            for a in cvgen.as_records(r, ref, t, n=r.choice([0, 1, 2]), min_tx_pos=(t.cds_start + 3) if t.coding else 3):
+                m = a['meta']
+                recs['as'].append((t.id, ('as', m['id'], m['kind'], m['start'], m['end'], m['dstart'], m['dend']), a['line']))
+                if m['kind'] == 'Insertion' and m['dend'] - m['dstart'] >= 4 and r.random() < 0.7:
+                    # a second insertion on the same anchor, other donor segment
+                    db2 = m['dstart'] + r.randrange(1, m['dend'] - m['dstart'])
+                    line2 = a['line'].replace(f"DONOR_END={m['dend']};", f"DONOR_END={db2};").replace(m['id'], f"RI_{m['dstart']}-{db2}")
+                    recs['as'].append((t.id, ('as', f"RI_{m['dstart']}-{db2}", m['kind'], m['start'], m['end'], m['dstart'], db2), line2))
+        if len(txs) >= 2:
+            for _ in range(r.randrange(0, 3)):
+                dt, at = r.sample(txs, 2)
+                lb = dt.tx2g(r.randrange(((dt.cds_start + 3) if dt.coding else 3), dt.length() - 1)); rb = at.tx2g(r.randrange(1, at.length() - 1))
+                fid, line = cvgen.fusion_line(ref, dt, lb, at, rb)
+                recs['fusion'].append((dt.id, ('fusion', fid), line))
+        for t in txs:
+            if r.random() < 0.5:
+                k0 = r.randrange(len(t.exons)); k1 = r.randrange(k0, len(t.exons))
+                cid, line = cvgen.circ_line(ref, t, list(range(k0, k1 + 1)))
+                recs['circ'].append((t.id, ('circ', cid), line))
+        heads = dict(small=cvgen.GVF_HEAD.format(parser='parseVEP', source='gSNP'),
+                     fusion=cvgen.GVF_HEAD.format(parser='parseSTARFusion', source='Fusion'),
+                     circ=cvgen.GVF_HEAD.format(parser='parseCIRCexplorer', source='circRNA'))
+        heads['as'] = cvgen.AS_HEAD.format(parser='parseRMATS', source='AltSplicing')
+        files = []       # (path, [(tx, key)])
+        for kind, L in recs.items():
+            if not L:
+                continue
+            # de-duplicate generated records, then split over 1-2 files; some lines go to both
+            seen, uniq = set(), []
+            for x in L:
+                if x[1] not in seen:
+                    seen.add(x[1]); uniq.append(x)
+            nf = 1 if len(uniq) < 2 else r.choice([1, 2, 2])
+            parts = [[] for _ in range(nf)]
+            for x in uniq:
+                k = r.randrange(nf); parts[k].append(x)
+                if nf == 2 and r.random() < 0.25:
+                    parts[1 - k].append(x)
+            for k, part in enumerate(parts):
+                if not part:
+                    continue
+                # records of one transcript are contiguous and files are ordered by gene, as the parsers write them
+                part.sort(key=lambda x: (x[2].split('\t')[0], x[0], int(x[2].split('\t')[1])))
+                pth = os.path.join(d, f'{kind}{k}.gvf')
+                with open(pth, 'w') as fh:
+                    fh.write(heads[kind] + '\n'.join(x[2] for x in part) + '\n')
+                files.append((pth, [(x[0], x[1]) for x in part]))
+        if files:
+            r.shuffle(files)
+            worlds.append(dict(paths=paths, files=files, index=[r.random() < 0.5 for _ in files], gtf=ref.gtf_lines(), chroms=ref.chroms))
+    return worlds
+
+
+def series_key(g):
+    a = g['attrs']
+    if g['slot'] == 'circ':
+        return ('circ', g['id'])
+    if g['type'] == 'Fusion':
+        return ('fusion', g['id'])
+    if g['type'] in ('Insertion', 'Deletion', 'Substitution'):
+        return ('as', g['id'])
+    return ('small', g['id'])
+
+
+def series_view(rep, tier, work):
+    from checks.cv import tlc_cases
+    r = env.rng('c13-series')
+    worlds = series_worlds(r, 24 if tier == 'quick' else 500, work)
+    nj = env.NCPU
+    jl = [dict(paths=w['paths'], files=[f for f, _ in w['files']], index=w['index']) for w in worlds]
+    res = jobs.run_jobs('run_gvf_series.py', [dict(jobs=jl[k::nj]) for k in range(nj)], timeout=3000)
+    flat = [None] * len(jl)
+    for k, rr in enumerate(res):
+        if not rr.get('ok'):
+            rep.machinery(f"series worker failed: {rr.get('error')} {rr.get('stderr', '')[-300:]}"); return
+        for j, x in enumerate(rr['results']):
+            flat[k + j * nj] = x
+    cases, info = [], []
+    for w, x in zip(worlds, flat):
+        ctx = dict(gtf=w['gtf'], chroms=w['chroms'], files=[[os.path.basename(f), [list(map(str, k)) for _, k in L]] for f, L in w['files']],
+                   indexed=w['index'])
+        if not x['ok']:
+            rep.violation(f"series-crash:{env.canon_hash(ctx)}", f"reading the per-transcript series raised: {x['error']}", dict(ctx, tb=x.get('tb')))
+            continue
+        # record text identity: (kind, id) - the generator gives distinct records distinct ids (two insertions on one anchor with
+        # different donor segments have different ids)
+        rid = {}
+        for f, L in w['files']:
+            for tx, key in L:
+                rid.setdefault((tx, key[:2]), len(rid) + 1)
+        files = [[[tx, rid[(tx, key[:2])]] for tx, key in L] for f, L in w['files']]
+        got = [[tx, [rid.get((tx, series_key(g)), 0) for g in L]] for tx, L in sorted(x['out'].items())]
+        cases.append(dict(files=files, got=got))
+        info.append(ctx)
+    verdicts = tlc_cases('GvfSeriesTrace', cases, work, 'series', rep)
+    nrec = ninfo = 0
+    for c, ctx, vs in zip(cases, info, verdicts):
+        vs = [v.strip('"') for v in vs]
+        dup = len({tuple(x) for f in c['files'] for x in f}) < sum(len(f) for f in c['files'])
+        rep.traces(1); rep.case(1, env.canon_hash(ctx['files']) if dup or len(c['files']) > 2 else None)
+        nrec += sum(len(f) for f in c['files'])
+        if 'done' not in vs:
+            rep.machinery('no verdict for a series case')
+        ninfo += sum(1 for v in vs if v.startswith('info_'))
+        bad = sorted(v for v in vs if v != 'done' and not v.startswith('info_'))
+        if bad:
+            rep.violation(f"series:{env.canon_hash(ctx)}:{','.join(bad)}",
+                          f"per-transcript record sets read through the pool differ from a linear scan of the files: {bad}", ctx)
+    rep.part('series_view', worlds=len(cases), record_lines=nrec, worlds_with_a_record_handed_out_twice=ninfo)
